@@ -464,6 +464,13 @@ UNITS['U37k'] = dict(
     assumptions=['R10: api::EncodingOpts reduced to (xor_float_compression, mantissa); xor compression off (the codec itself is U16k)', 'A-reserved: the NaN bit pattern xor_float::NULL is not a data value (property C01 states it as reserved)', 'string payloads are not compared (empty strings only)'],
     not_covered=['columns longer than 3 rows', 'the xor-compressed float path', 'bincode / HTTP transport'])
 
+UNITS['U21n'] = dict(
+    kind='native', crate='kani/U21n', bin='vx_u21n', timeout_s=900,
+    pool='every numeric-literal token the real sqlparser tokenizer produces from texts of length <= 6 (thorough: 7) over {0,1,9,.,e,E,+,-}, plus eleven boundary literals around and beyond the i64 / u64 / f64 limits',
+    title='BOUNDED exhaustive enumeration (native, not a proof): parser.rs get_raw_val (whole fn) on every short numeric literal the real sqlparser tokenizer can produce - an error value or a value, never a panic',
+    assumptions=['sqlparser and f64 parsing are outside both verifiers; get_raw_val is compiled natively and enumerated over a stated pool (bounded stand-in, reported under coverage.bounded)', 'R10: RawVal and QueryError reduced to same-named stand-ins'],
+    not_covered=['literals longer than the bound', 'the rest of convert_to_native_expr'])
+
 UNITS['U24k'] = dict(
     kind='kani', crate='kani/U24', timeout_s=600, mem_gb=12, jobs=2,
     title='BOUNDED (names <= 2 ASCII characters): storage.rs sanitize_table_name - cleaning steps after lower-casing (slice) and the verbatim-or-digest decision (expression slice)',
@@ -479,7 +486,7 @@ PROPS = {
                 level_note='the "decodes to exactly the logical content" half of C14 is decided for the envelope, the partition file\'s codec description and the catalogue cursor only; data sections, column metadata, WAL segments and the Cap\'n Proto transport itself (A-capnp) are not covered',
                 technique='contract-based deductive verification (Verus; Kani complete for the byte-conversion assumption) of extracted functions',
                 assumptions=[], not_covered=['capnp encode/decode of WAL segments, data sections and the catalogue partitions', 'FileBlobWriter']),
-    'C12': dict(level='other', units=['U13k', 'U21k', 'U19', 'U27k'],
+    'C12': dict(level='other', units=['U13k', 'U21k', 'U21n', 'U19', 'U27k'],
                 level_text='complete Kani proofs of the LIMIT/OFFSET row-window arithmetic (never more rows than LIMIT, no panic for any limit/offset/length); bounded Kani check that LIMIT/OFFSET literals give an error value instead of a panic; Verus / Kani: the NULL column standing in for an unknown column has exactly as many rows as the filter keeps (BatchResult::validate would otherwise panic a worker)',
                 level_note='narrow: sqlparser, convert_to_native_expr, result assembly (BatchResult::validate) and channel delivery are not covered',
                 technique='contract-based deductive verification (Kani complete + bounded harnesses) of extracted slices',
@@ -516,7 +523,7 @@ PROPS = {
                 level_note='per-partition planning, executor streaming, disk read scheduling and thread count are glue and not covered: the check catches a broken merge/combine primitive or a broken key-merge chain, not a broken executor',
                 technique='contract-based deductive verification (Verus + Kani complete harnesses) of extracted functions',
                 assumptions=[], not_covered=['executor stage partitioning / streaming', 'batch_merging::combine: ORDER BY branch and single-key branch', 'disk read scheduler']),
-    'C04': dict(level='proof', units=['U09k', 'U09v', 'U09m', 'U10', 'U19', 'U20k', 'U01', 'U29', 'U31k', 'U32k', 'U33', 'U27k'],
+    'C04': dict(level='proof', units=['U09k', 'U09v', 'U09m', 'U10', 'U19', 'U20k', 'U01', 'U29', 'U31k', 'U32k', 'U33', 'U27k', 'U28k'],
                 level_text='complete Kani proofs of accumulate/combine kernels; Verus proofs of dedup-merge / merge_drop / merge_keep kernels and bitmap primitives',
                 level_note='grouping-key construction, hash-map grouping and the final pass are not covered',
                 technique='contract-based deductive verification (Verus + Kani complete harnesses) of extracted functions',
